@@ -20,10 +20,13 @@ def quad_degree(cfg):
   return 2 * n - 1 if cfg.get('spacing', 'gauss') == 'gauss' else n - 1
 
 
-def task_grid(ctx, cfg):
+def task_grid(ctx, cfg, used=False):
   from dinosaur import spherical_harmonic as sh, fourier, jax_numpy_utils as jnu
   grid = grids.make_grid(cfg)
-  name = grids.cfg_name(cfg)
+  name = grids.cfg_name(cfg) + ('-used' if used else '')
+  if used:
+    # the clauses run on a grid object that has been used before with other option values (grids.exercise)
+    grids.exercise(grid)
   G = sh.Grid
   ctx.encoded(G.d_dlon, G.cos_lat_d_dlat, G.sec_lat_d_dlat_cos2, G.cos_lat_grad, G.div_cos_lat,
               G.curl_cos_lat, G.laplacian, G.inverse_laplacian, G.clip_wavenumbers, G.k_cross,
@@ -87,6 +90,13 @@ def task_grid(ctx, cfg):
   keep = np.ones(ms, bool); keep[:, L - 1:] = False
   prove_close(ctx, 'B.clip_wavenumbers', lambda x: (grid.clip_wavenumbers(x), x * keep), [xall], sp_b3,
               exact=True, twin=False, config=conf)
+  # clip counts other than the default, interleaved with the default (each call must honour its own n)
+  for nclip in (2, 3):
+    if L - nclip < 1:
+      continue
+    keepn = np.ones(ms, bool); keepn[:, L - nclip:] = False
+    prove_close(ctx, 'B.clip_wavenumbers', lambda x, nclip=nclip, keepn=keepn: ((grid.clip_wavenumbers(x, n=nclip), grid.clip_wavenumbers(x)), (x * keepn, x * keep)), [xall], sp_b3,
+                exact=True, twin=False, config=dict(conf, n=nclip))
   prove_close(ctx, 'B.inverse_laplacian_mean_and_padding',
               lambda x: (grid.inverse_laplacian(x) * (~zm | (np.arange(ms[1]) >= L)[None, :]) * 1.0, jnp.zeros(ms)), [xall], sp_b3,
               select=[(ll == 0) | (np.arange(ms[1]) >= L)[None, :]], exact=True, twin=False, config=conf)
@@ -153,7 +163,10 @@ def task_grid(ctx, cfg):
 
 def make_tasks(tier, seed):
   G = grids.quick_grids(seed) if tier == 'quick' else grids.thorough_grids(seed)
-  return [dict(name=grids.cfg_name(c), fn='task_grid', kw=dict(cfg=c)) for c in G if c['L'] >= 2]
+  tasks = [dict(name=grids.cfg_name(c), fn='task_grid', kw=dict(cfg=c)) for c in G if c['L'] >= 2]
+  for c in (G[1], G[2], G[7]) if tier == 'quick' else G[:12]:
+    tasks.append(dict(name=grids.cfg_name(c) + '-used', fn='task_grid', kw=dict(cfg=c, used=True)))
+  return tasks
 
 
 def main(tier='quick', seed=0, jobs=None, only=None, t0=None):
